@@ -1954,6 +1954,10 @@ class Array(DaskMethodsMixin):
                 value = broadcast_to(value, self[key].shape)
 
             y = where(key, value, self)
+            if y.chunks != self.chunks:
+                # ``where`` aligns the chunks of its operands; assignment
+                # must not change the chunks of the array assigned to
+                y = y.rechunk(self.chunks)
             # FIXME does any backend allow mixed ops vs. numpy?
             # If yes, is it wise to let them change the meta?
             self._meta = y._meta
